@@ -929,7 +929,7 @@ func init() {
 		nw := newNDWriter(w)
 		defer nw.flush()
 		nw.write(obj{"summary": true, "ops": nops, "events": tr.n, "chunks": nchunks, "values": nvals,
-			"mutated": e.mutated, "transcripts": transcripts})
+			"mutated": append([]string{}, e.mutated...), "transcripts": transcripts})
 		return nil
 	})
 }
